@@ -91,3 +91,100 @@ def acnorm(t):
         collect(t)
         return ("ac", t[1], tuple(sorted(ops, key=repr)))
     return tuple(acnorm(x) if isinstance(x, tuple) else x for x in t)
+
+
+# ---------------------------------------------------------------------- equivalence of word-level bit algebra
+BITOPS = ("BitAnd", "BitOr", "BitXor")
+_ONES = {"u8": 0xFF, "u16": 0xFFFF, "u32": 0xFFFFFFFF, "u64": 0xFFFFFFFFFFFFFFFF, "usize": 0xFFFFFFFFFFFFFFFF, "u128": (1 << 128) - 1}
+
+
+def _is_bitroot(t):
+    return isinstance(t, tuple) and t and ((t[0] == "bin" and t[1] in BITOPS) or (t[0] == "un" and t[1] == "Not"))
+
+
+def bitcanon(t):
+    """Canonical form that identifies all word expressions denoting the same bit-wise function of their maximal non-bit-wise subterms
+    (De Morgan, distribution, absorption, `a & !b` vs set difference, operand order): the function's truth table over its support.
+    Exact for and/or/xor/not; everything else (shifts, arithmetic, table reads, calls) is an atom, canonicalised recursively."""
+    if not isinstance(t, tuple) or not t:
+        return t
+    if not _is_bitroot(t):
+        if t[0] == "bin" and t[1] in AC_OPS and t[1] not in BITOPS:
+            ops = []
+
+            def flat(x):
+                if isinstance(x, tuple) and x and x[0] == "bin" and x[1] == t[1]:
+                    flat(x[2])
+                    flat(x[3])
+                else:
+                    ops.append(bitcanon(x))
+            flat(t)
+            return ("ac", t[1], tuple(sorted(ops, key=repr)))
+        return tuple(bitcanon(x) if isinstance(x, tuple) else x for x in t)
+    atoms = []
+
+    def collect(x):
+        if _is_bitroot(x):
+            for y in (x[2:] if x[0] == "bin" else x[2:3]):
+                collect(y)
+        elif isinstance(x, tuple) and x and x[0] == "int" and (x[1] == 0 or x[1] == _ONES.get(x[2] if len(x) > 2 else "", -1)):
+            pass
+        else:
+            c = bitcanon(x)
+            if c not in atoms:
+                atoms.append(c)
+    collect(t)
+    atoms.sort(key=repr)
+    if len(atoms) > 10:
+        return acnorm(t)
+
+    def table(vs):
+        k = len(vs)
+        width = 1 << k
+        full = (1 << width) - 1
+        basis = {}
+        for i, a in enumerate(vs):
+            w = 0
+            for j in range(width):
+                if (j >> i) & 1:
+                    w |= 1 << j
+            basis[a] = w
+
+        def ev(x):
+            if _is_bitroot(x):
+                if x[0] == "un":
+                    return full ^ ev(x[2])
+                a, b = ev(x[2]), ev(x[3])
+                return a & b if x[1] == "BitAnd" else (a | b if x[1] == "BitOr" else a ^ b)
+            if isinstance(x, tuple) and x and x[0] == "int" and x[1] == 0:
+                return 0
+            if isinstance(x, tuple) and x and x[0] == "int" and x[1] == _ONES.get(x[2] if len(x) > 2 else "", -1):
+                return full
+            return basis.get(bitcanon(x), 0)      # an atom outside the support: any value
+        return ev(t), width
+    tt, width = table(atoms)
+    # support: atoms the function really depends on
+    support = []
+    for i, a in enumerate(atoms):
+        lo = hi = 0
+        for j in range(width):
+            bit = (tt >> j) & 1
+            if (j >> i) & 1:
+                hi |= bit << (j & ~(1 << i))
+            else:
+                lo |= bit << j
+        if lo != hi:
+            support.append(a)
+    if len(support) != len(atoms):
+        tt, width = table(support)
+    if len(support) == 1 and tt == 0b10:
+        return support[0]           # the expression reduces to one of its atoms
+    return ("bitfn", tuple(support), tt)
+
+
+def eqv(a, b):
+    """Same value for every assignment of the atoms (exact for bit-wise algebra; AC-normal form otherwise)."""
+    return a == b or acnorm(a) == acnorm(b) or bitcanon(a) == bitcanon(b)
+
+
+canon = bitcanon
